@@ -2,6 +2,7 @@ package fakepg
 
 import (
 	"fmt"
+	"regexp"
 	"strconv"
 	"strings"
 )
@@ -345,6 +346,13 @@ func (p *parser) tableName() (TableName, error) {
 
 // ParseSQL parses a string possibly containing several ;-separated statements.
 func ParseSQL(src string) ([]Stmt, error) {
+	if strings.Contains(strings.ToLower(src), "row_number()") {
+		s, err := parsePrune(src)
+		if err != nil {
+			return nil, err
+		}
+		return []Stmt{s}, nil
+	}
 	toks, err := lex(src)
 	if err != nil {
 		return nil, err
@@ -691,6 +699,61 @@ func (p *parser) insert() (Stmt, error) {
 		return nil, &ErrUnsupported{"insert ... on conflict/returning"}
 	}
 	return StmtInsert{tn, cols, rows}, nil
+}
+
+// StmtPruneTop is the one window-function statement the server understands:
+//
+//	delete from T where (k1, k2, ...) not in (
+//	  select k1, k2, ... from (
+//	    select ..., row_number() over(partition by p1, ... order by o desc) as rn from T
+//	  ) as s where rn <= $n)
+//
+// (keep the newest n rows of every partition). Anything else with a window
+// function is refused.
+type StmtPruneTop struct {
+	Table    TableName
+	KeyCols  []string
+	PartCols []string
+	OrderCol string
+	Param    int
+}
+
+var pruneRE = regexp.MustCompile(`(?s)^\s*delete\s+from\s+([a-z_.]+)\s+where\s*\(([a-z_, ]+)\)\s*not\s+in\s*\(\s*select\s+([a-z_, ]+?)\s+from\s*\(\s*select\s+([a-z_, \n\t]+?),\s*row_number\(\)\s*over\s*\(\s*partition\s+by\s+([a-z_, ]+?)\s+order\s+by\s+([a-z_]+)\s+desc\s*\)\s*as\s+rn\s+from\s+([a-z_.]+)\s*\)\s*as\s+[a-z]+\s+where\s+rn\s*<=\s*\$([0-9]+)\s*\)\s*;?\s*$`)
+
+func splitCols(s string) []string {
+	var out []string
+	for _, c := range strings.Split(s, ",") {
+		if c = strings.TrimSpace(c); c != "" {
+			out = append(out, c)
+		}
+	}
+	return out
+}
+
+func parsePrune(src string) (Stmt, error) {
+	m := pruneRE.FindStringSubmatch(strings.ToLower(src))
+	if m == nil || m[1] != m[7] {
+		return nil, &ErrUnsupported{"window function outside the keep-newest-n form"}
+	}
+	key, sel, inner := splitCols(m[2]), splitCols(m[3]), splitCols(m[4])
+	if fmt.Sprint(key) != fmt.Sprint(sel) {
+		return nil, &ErrUnsupported{"keep-newest-n form with differing key lists"}
+	}
+	have := map[string]bool{}
+	for _, c := range inner {
+		have[c] = true
+	}
+	for _, c := range key {
+		if !have[c] {
+			return nil, &ErrUnsupported{"keep-newest-n form: key column not selected"}
+		}
+	}
+	tn := TableName{Name: m[1]}
+	if i := strings.Index(m[1], "."); i >= 0 {
+		tn = TableName{Schema: m[1][:i], Name: m[1][i+1:]}
+	}
+	n, _ := strconv.Atoi(m[8])
+	return StmtPruneTop{Table: tn, KeyCols: key, PartCols: splitCols(m[5]), OrderCol: m[6], Param: n}, nil
 }
 
 func (p *parser) delete() (Stmt, error) {
